@@ -1,4 +1,7 @@
-use super::{Namespace, TryFromNode, doc::RustDocument};
+use super::{
+    Namespace, TryFromNode,
+    doc::{RustDocument, Wanted},
+};
 use crate::{
     error::{WriterError, WriterResult},
     reader::WriteXml,
@@ -96,7 +99,8 @@ impl<'n> TryFromNode<'n> for Field {
                 .and_then(|ns| doc.find_namespace_by_abbreviation(ns))
                 .cloned();
 
-            let ref_node = doc.find_node_by_xml_name(&node, xml_name, namespace.as_deref());
+            let wanted = if node.tag_name().name() == "group" { Wanted::Type } else { Wanted::Element };
+            let ref_node = doc.find_node_by_xml_name(&node, xml_name, namespace.as_deref(), wanted);
             let ref_node = ref_node
                 .as_ref()
                 .ok_or_else(|| WriterError::NodeNotFound(ref_name.to_string()))?;
